@@ -155,6 +155,7 @@ func runBCE(w *World) (map[string]bool, error) {
 }
 
 type c04Ob struct {
+	size   ssa.Value // alloc: the size operand (MakeSlice.Len or the argument of an allocating call)
 	in     ssa.Instruction
 	kind   string
 	goals  []lin
@@ -493,7 +494,7 @@ func c04Obligation(w *World, fn *ssa.Function, in ssa.Instruction, bcp **boundsC
 		}
 		bc := need()
 		l := bc.lin(x.Len)
-		return &c04Ob{in: in, kind: "alloc", goals: []lin{l.neg()}, desc: "make(" + types.TypeString(x.Type(), func(p *types.Package) string { return p.Name() }) + ", " + bc.r.R(x.Len) + ")"}
+		return &c04Ob{in: in, kind: "alloc", goals: []lin{l.neg()}, size: x.Len, desc: "make(" + types.TypeString(x.Type(), func(p *types.Package) string { return p.Name() }) + ", " + bc.r.R(x.Len) + ")"}
 	case *ssa.BinOp:
 		switch x.Op {
 		case token.QUO, token.REM:
@@ -526,8 +527,24 @@ func c04Obligation(w *World, fn *ssa.Function, in ssa.Instruction, bcp **boundsC
 			bc := need()
 			return &c04Ob{in: in, kind: "nil-logger", desc: bc.r.R(x.Call.Args[0]) + "." + f.Name()}
 		}
+		// library calls that allocate the number of bytes/elements they are told to
+		if f := x.Call.StaticCallee(); f != nil {
+			if ai, ok := allocCalls[calleeName(f)]; ok && ai < len(x.Call.Args) {
+				if _, isC := constInt(x.Call.Args[ai]); !isC {
+					bc := need()
+					l := bc.lin(x.Call.Args[ai])
+					return &c04Ob{in: in, kind: "alloc", goals: []lin{l.neg()}, size: x.Call.Args[ai], desc: calleeName(f) + "(…, " + bc.r.R(x.Call.Args[ai]) + ")"}
+				}
+			}
+		}
 	}
 	return nil
+}
+
+// allocCalls: standard library functions that allocate as much as an argument says (index into
+// Call.Args, receiver included).
+var allocCalls = map[string]int{
+	"bytes.(*Buffer).Grow": 1, "strings.(*Builder).Grow": 1, "bytes.Repeat": 1, "strings.Repeat": 1, "bufio.NewReaderSize": 1, "bufio.NewWriterSize": 1,
 }
 
 // capLin: an upper bound usable for the high index of a slice expression: cap(x) when it is known
@@ -681,8 +698,7 @@ func allocBoundedAt(bc *boundsCtx, l lin, at ssa.Instruction) (bool, string) {
 
 // c04AllocBounded: the size is bounded here, or — when it is made of parameters — at every module call site.
 func c04AllocBounded(w *World, bc *boundsCtx, fn *ssa.Function, ob *c04Ob, cg *callgraph.Graph) (bool, string) {
-	m := ob.in.(*ssa.MakeSlice)
-	l := bc.lin(m.Len)
+	l := bc.lin(ob.size)
 	ok, why := allocBoundedAt(bc, l, ob.in)
 	if ok {
 		return true, why
